@@ -116,6 +116,21 @@ def in_decoder(e):
 
 
 # --- concretisation ---------------------------------------------------------------------------------
+def _sparc_annulled():
+    """SPARC Bicc / FBfcc with the annul bit set (format 2: 00 a cond(4) op2(3) disp22), several conditions:
+    `be,a`, `bne,a`, `bleu,a`, `ba,a`, ... - delayed control-flow instructions whose delay slot belongs to the block"""
+    out = []
+    for op2 in (2, 6):
+        for cond in (1, 9, 4, 8, 3, 12):
+            for disp in (2, 0x3FFFF0):
+                out.append(((1 << 29) | (cond << 25) | (op2 << 22) | disp).to_bytes(4, "big"))
+    return out
+
+
+# encodings added to the sampled class tables when they decode to the stated class (spec-derived, not sampled)
+EXTRA_ENCODINGS = {"sparc": [((4, "d"), _sparc_annulled())]}
+
+
 def class_table(isa, rng, tries=4000, per=12):
     """(byte length, flag) -> list of byte strings of that class, found by decoding seeded random
     byte strings with the ISA's own disassembler; only encodings that decode to the same length when
@@ -151,6 +166,17 @@ def class_table(isa, rng, tries=4000, per=12):
                 break
         if ok and enc not in lst:
             lst.append(enc)
+    for key, encs in EXTRA_ENCODINGS.get(isa, []):
+        for enc in encs:
+            try:
+                i = dis(enc)
+            except Exception:
+                continue
+            if i is None or i.length != len(enc):
+                continue
+            cf, dl = flags_of(i)
+            if (i.length, "d" if dl else ("c" if cf else "n")) == key and enc not in tab.setdefault(key, []):
+                tab[key].append(enc)
     return tab
 
 
@@ -393,6 +419,17 @@ def sweep_job(args):
             else:
                 b = encoded_buffer(tab, rng, bufsize, bufsize)
                 bufs.append(("encoded", b) if b else ("random", bytes(rng.randrange(256) for _ in range(bufsize))))
+    for key, encs in EXTRA_ENCODINGS.get(isa, []):
+        # every spec-derived encoding once, each followed by an arbitrary instruction (its delay slot) and another one
+        plain = sorted(tab)
+        buf = b""
+        for enc in encs[:12]:
+            buf += enc
+            for _ in range(2):
+                k = plain[rng.randrange(len(plain))]
+                buf += tab[k][rng.randrange(len(tab[k]))]
+        for o in range(0, len(buf), 36):
+            bufs.append(("spec-derived", buf[o:o + 36]))
     tid = tid0
     for src, buf in bufs:
         if all_starts is True:
@@ -589,11 +626,13 @@ def replay_chunk(args):
             tid += 1
             t = run_history(tid, host.isa, host.cpu, buf, steps, not wide,
                             meta={"L": L, "F": F, "br": [r.get("br", r["op"]) for r in h], "gen": tag})
-            if t["kind"] == "graph":
-                got = [[x[1] // host.unit if x[1] % host.unit == 0 else -1, "d" if x[3] else ("c" if x[2] else "n")] for x in t["S"]]
-                if got != [[l, f] for l, f in zip(L, F)]:
-                    stats["mismatch"] += 1
-                    continue
+            if t["kind"] != "graph":
+                stats["aborted"] = stats.get("aborted", 0) + 1     # the sweep of the assembled buffer ended in a decoder exception
+                continue
+            got = [[x[1] // host.unit if x[1] % host.unit == 0 else -1, "d" if x[3] else ("c" if x[2] else "n")] for x in t["S"]]
+            if got != [[l, f] for l, f in zip(L, F)]:
+                stats["mismatch"] += 1
+                continue
             traces.append(t)
     return {"traces": traces, "stats": stats}
 
